@@ -43,7 +43,7 @@ _add(PropertySpec(
     'C01', 'proof',
     functions=['ampycloud.data.CeiloChunk.metar_msg', 'ampycloud.data.CeiloChunk._ncd_or_nsc',
                'ampycloud.icao.significant_cloud', 'ampycloud.wmo.okta2code', 'ampycloud.wmo.height2code'],
-    lemmas=_MSG_LEMMAS,
+    lemmas=_MSG_LEMMAS + ['cnt_ext', 'prop.C02.nosig'],
     explanation=('metar_msg is symbolically executed from its real AST for every which in {slices, groups, layers}, MSA None or any '
                  'real, table not computed / any table of symbolic length satisfying the table invariant TI (okta in 0..8, finite sorted '
                  'bases in [0,1e5), code = abbr(okta) ++ floor-code(base), SigRel).  Posts: grammar of the message; the groups are exactly '
@@ -89,12 +89,13 @@ _add(PropertySpec(
                  'library meaning of the np.unique / boolean-mask idiom; the expression is pinned by its exact AST (a change makes the '
                  'check UNDECIDED) and the clause is checked by recounting with Python sets on the scene grammar.'),
     assumptions=[A_REAL, 'hit-count expression (np.unique over masks) = number of distinct (ceilo, dt) measurements: assumed, bounded stand-in only',
-                 'contracts of _setup_sligrolay_pdf / _calculate_sligrolay_base_height / _add_sligrolay_information are assumed at their call sites in metarize'],
+                 'the three other helpers of metarize (_setup_sligrolay_pdf, _calculate_sligrolay_base_height, _add_sligrolay_information) are verified against their bodies in C01 / C04'],
     not_decided=['the counting clause for all inputs (library semantics; bounded only)'],
 ))
 
 # metarize establishes the table invariant that C01 / C02 rely on
-SPECS['C01'].functions += ['ampycloud.data.CeiloChunk.metarize', 'ampycloud.data.CeiloChunk._calculate_cloud_amount']
+SPECS['C01'].functions += ['ampycloud.data.CeiloChunk.metarize', 'ampycloud.data.CeiloChunk._calculate_cloud_amount',
+                           'ampycloud.data.CeiloChunk._setup_sligrolay_pdf', 'ampycloud.data.CeiloChunk._calculate_sligrolay_base_height']
 SPECS['C02'].functions += ['ampycloud.data.CeiloChunk.metarize']
 
 
@@ -232,7 +233,8 @@ _add(PropertySpec(
 _add(PropertySpec(
     'C04', 'other',
     functions=['ampycloud.utils.utils.calc_base_height', 'ampycloud.wmo.height2code', 'ampycloud.data.CeiloChunk.metarize',
-               'ampycloud.data.CeiloChunk._calculate_base_height_for_selection', 'ampycloud.data.CeiloChunk._calculate_sligrolay_base_height'],
+               'ampycloud.data.CeiloChunk._calculate_base_height_for_selection', 'ampycloud.data.CeiloChunk._calculate_sligrolay_base_height',
+               'ampycloud.data.CeiloChunk._add_sligrolay_information'],
     lemmas=['cnt_frame', 'cnt_ext', 'prop.C02.nosig', 'prop.C18.h.floor', 'prop.C18.h.tight', 'prop.C18.h.mono', 'prop.C18.h.three_digits', 'fp.floor100', 'fp.floor1000', 'fmt03.digits', 'fmt03.value'],
     bounded=_bounded('c04'),
     explanation=('PROVED (P): calc_base_height (real AST; Python slice arithmetic incl. vals[-0:]) takes the configured percentile over '
